@@ -48,6 +48,30 @@ Proof.
     rewrite (Ksym (skip i a) i L Hi). unfold w_of. reflexivity.
 Qed.
 
+(* KrigingSystem::_getFlagAddress (as repaired): the rank of equation i = IND(iech, ivar) in the compressed system is the number
+   of flagged equations before it; -1 (None) when the equation itself is not flagged.  That rank is the position of i in the
+   list of active equations, i.e. the row of lhs_c (and of its inverse) that belongs to the cross-validated sample. *)
+Definition flag_address (k : kcase) (i : nat) : option nat :=
+  if flag k i then Some (length (filter (flag k) (seq 0 i))) else None.
+
+Lemma flag_address_spec k i a :
+  (i < neq k)%nat -> flag_address k i = Some a -> (a < nred k)%nat /\ nth a (active k) 0%nat = i.
+Proof.
+  intros Hi H. unfold flag_address in H. destruct (flag k i) eqn:F; [|discriminate]. injection H as <-.
+  unfold nred, active.
+  replace (neq k) with (i + S (neq k - S i))%nat by lia.
+  rewrite seq_app. cbn [Nat.add seq]. rewrite filter_app. cbn [filter]. rewrite F.
+  split.
+  - rewrite app_length. cbn [length]. lia.
+  - apply nth_middle.
+Qed.
+
+Lemma flag_address_none k i : flag_address k i = None -> ~ In i (active k).
+Proof.
+  unfold flag_address. destruct (flag k i) eqn:F; [discriminate|]. intros _ C.
+  apply active_spec in C. destruct C as [_ C]. congruence.
+Qed.
+
 (* ------------------------------------------------------------------ pair 5 *)
 (* DbGrid::getDiscretizedBlock (/repo/src/Db/DbGrid.cpp:2207): offset of discretisation point j of nd along one axis *)
 Definition disc_offset (taille : Q) (nd j : nat) : Q :=
@@ -165,3 +189,8 @@ Proof.
   split; [apply (schur_varz n p Sigma S X C sigma0 x0 HS HC)|].
   apply (schur_stdv n p Sigma S X C sigma0 x0 HS HC sigma00).
 Qed.
+
+Lemma calcul_sk_mean n Sigma S sigma0 z (m : Q) :
+  finv n Sigma S -> fsym n Sigma ->
+  fdot n (lam_sk n S sigma0) z + m == fdot n sigma0 (fmv n S z) + m.
+Proof. intros HS Hs. exact (sk_primal_dual n S sigma0 z m (finv_sym n Sigma S Hs HS)). Qed.
